@@ -970,6 +970,31 @@ example :
 section Round4Labeled
 -- (theorems of this package go between this line and the `end`)
 
+/-- **C11+C10 (slic).** If the guards of the wrapper `segmentation.slic` (as extracted) pass on an ndarray and integer `spacer`,
+`max_iters`, then (`C11_slic_guards_imply_pre`) the array is `(h, w, 3)`, `spacer ≥ 1`, a seed exists on both axes; hence
+(`C10_slic_first_iteration_covers`) the seeding loops place at least one centroid, all inside the image, and the windows of the first
+iteration cover every pixel — no pixel keeps a label that is not a centroid index — and (`C10_slic_window_in_bounds`) every window of
+every later iteration, for any centroid position inside the image, is in bounds and its `!=` loops end. -/
+theorem C11_slic_safe (env : Env)
+    (ha : (env "array").kind = 1) (hs : (env "spacer").kind = 2) (hm : (env "max_iters").kind = 2)
+    (hnd : (env "array").wf) (h : passes Generated.guards_segmentation_slic env = true) :
+    ∃ S ny nx : Nat, (S : Int) = (env "spacer").ival ∧ ny = (env "array").shape.getD 0 0 ∧ nx = (env "array").shape.getD 1 0 ∧
+      Mahotas.C10Slic.covered S ny nx = true ∧ 1 ≤ (Mahotas.C10Slic.seedCentroids S ny nx).length ∧
+      (∀ c ∈ Mahotas.C10Slic.seedCentroids S ny nx, c.1 < ny ∧ c.2 < nx) ∧
+      ∀ cy cx : Int, 0 ≤ cy → cy < ny → 0 ≤ cx → cx < nx →
+        ∃ l, Mahotas.C10Slic.windowPositions ny nx S cy cx = some l ∧ Mahotas.C10Slic.inN ((ny : Int) * nx) l = true := by
+  have hpre := C11_slic_guards_imply_pre env ha hs hm hnd h
+  unfold PreSlic at hpre
+  obtain ⟨-, -, hS, -, hy, hx⟩ := hpre
+  refine ⟨(env "spacer").ival.toNat, _, _, by omega, rfl, rfl, ?_⟩
+  have hy' : (env "spacer").ival.toNat / 2 < (env "array").shape.getD 0 0 := by omega
+  have hx' : (env "spacer").ival.toNat / 2 < (env "array").shape.getD 1 0 := by omega
+  obtain ⟨c1, c2, c3⟩ := C10_slic_first_iteration_covers _ _ _ (by omega) hy' hx'
+  refine ⟨c1, c2, c3, ?_⟩
+  intro cy cx h1 h2 h3 h4
+  obtain ⟨l, e, hl, -, -⟩ := C10_slic_window_in_bounds _ _ ((env "spacer").ival.toNat : Int) cy cx (by omega) h1 h2 h3 h4
+  exact ⟨l, e, hl⟩
+
 /-- **C11+C10 (label, the union–find array).** With the links of `labeled.label` on an ndarray (the native `array` is the
 `_get_output` buffer of the image's shape, written `output[:] = (array != 0)`), for EVERY content `data` of that buffer, every list
 of neighbour offsets and both border treatments: the filter-iterator table is in bounds (`C11_label_safe`) and every index
@@ -1170,7 +1195,7 @@ def entryCover : List EntryCover := [
   ⟨"_labeled.border", [``C10_filter_table_ok, ``C10_filter_iterator_refines, ``C10_alloc_fill_defined], [], "bounds", "filter iterator + stores at the pixel cursor; no model of its own"⟩,
   ⟨"_labeled.labeled_sum", [``C10_labeled_foldl_in_bounds, ``C10_alloc_fill_defined], [], "bounds", "negative labels are skipped by the kernel (`C10_labeled_foldl_in_bounds`)"⟩,
   ⟨"_labeled.labeled_max_min", [``C10_labeled_foldl_in_bounds, ``C10_alloc_fill_defined], [], "bounds", ""⟩,
-  ⟨"_labeled.slic", [], [``C11_slic_guards_imply_pre, ``C11_slic_seeds_nonempty_in_range, ``C11_slic_seed_fuel_sufficient], "pre", "NO index model of the slic loops (window loops, centroid tables): validated by the ASan sweep only"⟩,
+  ⟨"_labeled.slic", [``C10_slic_window_in_bounds, ``C10_slic_first_iteration_covers, ``C10_find_in_bounds], [``C11_slic_guards_imply_pre, ``C11_slic_seeds_nonempty_in_range, ``C11_slic_seed_fuel_sufficient, ``C11_slic_safe], "safe", "the stateful assignment fold, the connectivity post-pass (union-find over nlabels, priority queue) and its termination are not traced as a whole; float comparisons assumed finite (D2 < 10e20)"⟩,
   ⟨"_morph.subm", [``C10_pair_scan_in_bounds], [``C11_subm_safe], "safe", ""⟩,
   ⟨"_morph.erode", [``C10_filter_table_ok, ``C10_filter_iterator_refines, ``C10_fastbinary_in_bounds, ``C10_alloc_pixel_loop_defined], [``C11_morph_guards_imply_pre, ``C11_erode_dilate_safe], "safe", ""⟩,
   ⟨"_morph.locmin_max", [``C10_filter_table_ok, ``C10_filter_iterator_refines, ``C10_alloc_fill_defined], [], "bounds", "filter iterator + conditional stores at the pixel cursor; no model of its own"⟩,
@@ -1198,16 +1223,16 @@ def entryCover : List EntryCover := [
 /-- **C11/C10, coverage of the native entry points.** EVERY `py_*` entry point of the current sources (the 52 rows of
 `Generated.nativeGuardTable`) has a row in `entryCover`, every row names at least one theorem, and every theorem named exists
 (the names are checked when this file is elaborated). A NEW entry point that nobody has looked at makes this `decide` fail.
-The levels: 31 entry points reach a composed `C11_*_safe` corollary, 2 a `_partial` one, 6 have guards ⇒ precondition only, 13 a
-C10 bounds theorem only; `_labeled.slic` is the one entry point without any index model. -/
+The levels: 32 entry points reach a composed `C11_*_safe` corollary, 2 a `_partial` one, 5 have guards ⇒ precondition only, 13 a
+C10 bounds theorem only; no entry point is left without an index model. -/
 theorem C11_native_entry_points_covered :
     Generated.nativeGuardTable.all (fun e => entryCover.any fun c => c.entry == e.1) = true ∧
     entryCover.all (fun c => !(c.c10.isEmpty && c.c11.isEmpty)) = true ∧
-    (entryCover.filter fun c => c.level == "safe").length = 31 ∧
+    (entryCover.filter fun c => c.level == "safe").length = 32 ∧
     (entryCover.filter fun c => c.level == "partial").length = 2 ∧
-    (entryCover.filter fun c => c.level == "pre").length = 6 ∧
+    (entryCover.filter fun c => c.level == "pre").length = 5 ∧
     (entryCover.filter fun c => c.level == "bounds").length = 13 ∧
-    (entryCover.filter fun c => c.c10.isEmpty).map (·.entry) = ["_labeled.slic"] := by
+    (entryCover.filter fun c => c.c10.isEmpty).map (·.entry) = [] := by
   decide +kernel
 
 end Round4Alloc
